@@ -3,7 +3,7 @@
 TIER=$1; shift
 cd "$(dirname "$0")/.." || exit 9
 # inside `vp run --with-repo` use the repository snapshot, so that patches tried on /repo meanwhile do not disturb this run
-if [ -n "${VP_RUN_REPO:-}" ] && [ "$(pwd)" != "/verif" ]; then sed -i "s#path = \"/repo\"#path = \"$VP_RUN_REPO\"#" harness/Cargo.toml; echo "using repo snapshot $VP_RUN_REPO"; fi
+if [ -n "${VP_RUN_REPO:-}" ] && [ "$(pwd)" != "/verif" ]; then sed -i "s#path = \"/repo\"#path = \"$VP_RUN_REPO\"#" harness/Cargo.toml; export VERIF_REPO_DIR=$VP_RUN_REPO; echo "using repo snapshot $VP_RUN_REPO"; fi
 for s in "$@"; do
   for p in C01 C02 C03 C04 C05 C06 C07 C08 C09 C10 C11 C12 C13 C14 C15 C16 C17 C18 C19 C20; do
     OUT=$(VERIF_SEED=$s ./check $p --tier $TIER 2>&1); rc=$?
